@@ -69,6 +69,16 @@ func (n *LocalNode) stabilize() error {
 		succList = succList[1:]
 	}
 
+	// the list wraps around the ring once it reaches ourselves: whatever follows is more than a full
+	// circle away (in a ring smaller than the list those slots otherwise keep passing departed nodes
+	// from neighbour to neighbour forever)
+	for i, s := range succList {
+		if s != nil && s.ID() == n.ID() {
+			succList = succList[:i+1]
+			break
+		}
+	}
+
 	n.lastStabilized.Store(time.Now())
 
 	listHash := n.hash(succList)
